@@ -2,6 +2,7 @@ package ctfe
 
 import (
 	"bytes"
+	"fmt"
 	"context"
 	"strings"
 	"time"
@@ -33,6 +34,10 @@ func (w *World) drawExternal() {
 	p.CacheSize = []int{1, 2, 8}[t.Intn(3)]
 	p.CacheTTL = []time.Duration{10 * time.Second, time.Minute, 10 * time.Minute}[t.Intn(3)] // the LRU's expiry ticker fires every TTL/100 of fake time
 	p.Prefill = []int{0, 0, 0, 0, 12, 12, 20, 36}[t.Intn(8)]
+	p.StoreIgnoresCtx = (w.mode.Faults || w.mode.StoreFaults || w.mode.Prop == "C14") && t.Chance(1, 2)
+	if p.Prefill > 0 && t.Chance(3, 4) {
+		p.MaxGet, p.Align = 1000, false // batches as long as the prefilled log
+	}
 	if w.mode.Faults || w.mode.StoreFaults || w.mode.Prop == "C14" {
 		for _, k := range []string{"store.err", "store.lost", "store.corrupt", "store.slow", "cache.miss", "cache.evict", "cache.err", "cache.drop"} {
 			if t.Chance(1, 2) {
@@ -43,7 +48,7 @@ func (w *World) drawExternal() {
 }
 
 func (w *World) initExternal() {
-	x := &extState{w: w, store: &MemStore{S: w.s, Rows: map[string][]byte{}}}
+	x := &extState{w: w, store: &MemStore{S: w.s, Rows: map[string][]byte{}, IgnoresCtx: w.prof.StoreIgnoresCtx}}
 	p := &w.prof
 	var inner cache.IssuanceChainCache
 	var mc *mapCache
@@ -90,6 +95,34 @@ func (x *extState) options(parked []*kernel.Parked) []kernel.Option {
 		return nil
 	}
 	pf := x.w.prof.Fault
+	// several chain lookups of one request under way at once: let its deadline pass right now (the moment at which a
+	// fan-out has to tell "a sibling failed" from "the request is over")
+	inFlight := map[string]int{}
+	for _, p := range parked {
+		if p.Name == "store.Find" {
+			inFlight[p.Party]++
+		}
+	}
+	for _, p := range parked {
+		if p.Name == "cache.Get" {
+			delete(inFlight, p.Party) // still fanning out: wait until every lookup it has started is at the store
+		}
+	}
+	for _, party := range sortedKeys(inFlight) {
+		op := x.w.opByParty(party)
+		if inFlight[party] < 2 || op == nil || pf["store.slow"] == 0 {
+			continue
+		}
+		if left := op.StartT + x.w.prof.Deadline - s.Now(); left >= 0 {
+			d := left + time.Millisecond
+			n := inFlight[party]
+			out = append(out, kernel.Option{Key: "deadline of " + party + " passes", Weight: 6 * inFlight[party], Apply: func() {
+				s.Fault("deadline-during-lookups")
+				s.Probe(fmt.Sprintf("deadline-during-lookups.inflight=%d", min(n, 9)))
+				time.Sleep(d)
+			}})
+		}
+	}
 	for _, p := range parked {
 		if !strings.HasPrefix(p.Name, "store.") && !strings.HasPrefix(p.Name, "cache.") {
 			continue
